@@ -2,10 +2,12 @@
 //! `ops.txt` (one op per line), `impl.txt` (one reply per line) and `meta.json` into `--out`.
 //! The same `ops.txt` is then fed to the Lean driver `suxdrv <runner>` and the replies diffed.
 mod common;
+mod run_atomic;
 mod run_bfv;
 mod run_bitvec;
 mod run_edge;
 mod run_ef;
+mod run_func;
 mod run_gf2;
 mod run_lender;
 mod run_ranksel;
@@ -85,6 +87,10 @@ fn main() {
         ("edge", Some(l)) => run_edge::replay(&mut ctx, l),
         ("space", None) => run_space::run(&mut ctx),
         ("space", Some(l)) => run_space::replay(&mut ctx, l),
+        ("atomic", None) => run_atomic::run(&mut ctx),
+        ("atomic", Some(l)) => run_atomic::replay(&mut ctx, l),
+        ("func", None) => run_func::run(&mut ctx),
+        ("func", Some(l)) => run_func::replay(&mut ctx, l),
         ("bfv", None) => run_bfv::run(&mut ctx),
         ("bfv", Some(l)) => run_bfv::replay(&mut ctx, l),
         (r, _) => {
